@@ -12,7 +12,7 @@ Requests:
       -> {"e":name,"phase":"init"}
        | {"steps":[{"idx":[ints]|{"e":name}, "e":name}                     (fill raised; state kept)
                  |{"idx":.., "chg":[[[index],new],..], "oor":int},..],
-          "bins":nested, "oor":int, "nev":int, "nev_in":int,
+          "bins":nested, "oor":int,
           "all":{"e":name}|{"bins":nested,"oor":int}}        (`fillAll`: the whole sequence, first exception ends it)
   {"op":"elem","edges":..,"bins":..,"init":int,"one":int,
    "vals":[{"c":..,"ctx":int|null,"g":..},..]}
@@ -128,7 +128,7 @@ def handle (j : Json) : Json :=
             | .error e => Json.mkObj [("e", exc e)]
             | .ok ha => Json.mkObj [("bins", narrJson ha.bins), ("oor", ofInt ha.nOut)]
           Json.mkObj [("steps", Json.arr steps.toArray), ("bins", narrJson hf.bins), ("oor", ofInt hf.nOut),
-                      ("nev", ofInt (getNevents hf true)), ("nev_in", ofInt (getNevents hf false)), ("all", all)]
+                      ("all", all)]
         | none => err "bad fills"
     | _, _, _, _ => err "bad hist args"
   | some "elem" =>
@@ -141,8 +141,8 @@ def handle (j : Json) : Json :=
         match HistEl.fillAll (none : Option Int) one el (vals.map (fun (g, c, ctx) => (g, c, ctx.map some))) with
         | .error e => Json.mkObj [("e", exc e), ("phase", "fill")]
         | .ok el' =>
-          let (h, ctx) := HistEl.compute el'
-          Json.mkObj [("bins", narrJson h.bins), ("oor", ofInt h.nOut), ("ctx", ofOpt ofInt ctx)]
+          Json.mkObj [("bins", narrJson el'.hist.bins), ("oor", ofInt el'.hist.nOut),
+                      ("ctx", ofOpt ofInt el'.curContext)]
     | _, _, _, _, _ => err "bad elem args"
   | _ => err "unknown op"
 
